@@ -792,7 +792,9 @@ def _execute_single(
     output, exists = _load_from_store(func.output_name, store, return_output=True)
     if exists:
         # Not the return value of `func` but its picked outputs: must not go through `output_picker` again
-        return _LoadedOutputs(tuple(output) if isinstance(func.output_name, tuple) else (output,))
+        # (`_load_from_store` hands back a list only for more than one name; a 1-tuple `output_name` gets the bare value)
+        several = isinstance(func.output_name, tuple) and len(func.output_name) > 1
+        return _LoadedOutputs(tuple(output) if several else (output,))
 
     # Otherwise, run the function
     _load_arrays(kwargs)
